@@ -112,9 +112,12 @@ template <bool E>
 struct Peek : AIToolbox::POMDP::BeliefNode<E> {
     static const AIToolbox::POMDP::TrackBelief<E> & tb(const AIToolbox::POMDP::BeliefNode<E> & b) { return b.*(&Peek::trackBelief_); }
 };
+static std::vector<std::pair<size_t, size_t>> g_rcnt;   // (N, sum over action N) of every rPOMCP node of the last dump
 template <bool E>
 static void dumpR(const AIToolbox::POMDP::BeliefNode<E> & n, Path & p, Line & l, size_t & count) {
+    if (count == 0) g_rcnt.clear();
     ++count;
+    { size_t sum = 0; for (auto & an : n.children) sum += an.N; g_rcnt.emplace_back(n.N, sum); }
     putPath(l, p); l << (size_t)n.N;
     std::map<size_t, unsigned> tb; for (auto & kv : Peek<E>::tb(n)) tb[kv.first] = kv.second.N;
     l << (size_t)tb.size(); for (auto & kv : tb) l << kv.first << kv.second;
@@ -231,6 +234,10 @@ static void episode(Core & c, int kind, Rng & rng, const std::vector<CallPlan> &
             Line hz; hz << "C19" << "hzp" << kind << h << it << (size_t)c.log.size();
             extra.push_back(hz.os.str());
         }
+        if (kind == 3) {   // literal count clause on every rPOMCP node
+            Line rc; rc << "C19" << "rcnt" << (size_t)g_rcnt.size(); for (auto & x : g_rcnt) rc << x.first << x.second;
+            extra.push_back(rc.os.str());
+        }
         if (kind != 3) {   // strict range line: every action value against the bounds for the remaining horizon
             Line rg; rg << "C19" << "rng" << kind << c.gamma << c.rmin << c.rmax << budget << count << d.os.str();
             extra.push_back(rg.os.str());
@@ -278,7 +285,6 @@ long verif::verif_ncases(const std::string & tier) { return kWitness + (tier == 
 void verif::verif_case(Rng & rng, long idx, const std::string & tier) {
     bool witness = idx < kWitness;
     int kind = witness ? (int)(idx % 4) : (int)rng.below(4);
-    if (witness && kind == 1) kind = 2;
     unsigned maxSteps = 0;
     auto plan = genPlan(rng, tier, witness, maxSteps);
     Core c; genCore(c, rng, kind, witness, maxSteps);
